@@ -239,6 +239,10 @@ Definition flt_lt0 (f : fval) : bool :=
   | FNum hex neg m e => neg && negb (num_le hex m e 1 1075)
   end.
 
+(* `f >= 0` and `f <= 1`: false for NaN *)
+Definition flt_ge0 (f : fval) : bool := match f with FNaN => false | _ => negb (flt_lt0 f) end.
+Definition flt_le1 (f : fval) : bool := match f with FNaN => false | _ => negb (flt_gt1 f) end.
+
 (* ---------------------------------------------------------------- strings.ToLower, EqualFold *)
 (* strings.ToLower as observed through comparisons with ASCII words.  Result: list of runes;
    three non-ASCII code points matter (exhaustive sweep of Go's unicode tables in the harness):
@@ -352,20 +356,25 @@ Definition atoi_in (v : list N) (p : Z -> bool) : bool :=
 
 Definition is_bool (v : list N) : bool := match parse_bool v with Some _ => true | None => false end.
 
-Definition is_shape (v : list N) : bool := (* d2target.IsShape(strings.ToLower v) *)
+(* d2target.IsShape(strings.ToLower v): "" is the default shape; otherwise the lower-cased value must
+   EQUAL a table entry (since 0fc4ab54b; IsShape lower-cases again, which changes nothing here). *)
+Definition is_shape (v : list N) : bool :=
+  match go_lower v with [] => true | l => mem_word l shapes end.
+(* the pinned variant compared with strings.EqualFold, which identifies U+017F with s *)
+Definition is_shape_pinned (v : list N) : bool :=
   match go_lower v with [] => true | l => mem_word (fold_s l) shapes end.
 Definition is_arrowhead (v : list N) : bool := mem_word (go_lower v) arrowheads.
 
 Section Accepts.
   Variable grad_ok : list N -> bool.
 
-  (* Mirrors the `err != nil || (f < lo || f > hi)` tests of Style.Apply and the
+  (* Mirrors the `err != nil || !(f >= 0 && f <= 1)` / `err != nil || (f < lo || f > hi)` tests of Style.Apply and the
      `err != nil` / `v < 0` / `v <= 0` tests of compileReserved, validateConfigs. *)
   Definition accepts (c : ctx) (k : kw) (v : list N) : bool :=
     match k with
     | KOpacity =>
         match parse_float v with
-        | Some f => negb (flt_lt0 f || flt_gt1 f)
+        | Some f => flt_ge0 f && flt_le1 f
         | None => false
         end
     | KStroke | KFill | KFontColor => valid_color grad_ok v
@@ -378,7 +387,8 @@ Section Accepts.
     | KFont => mem_word (go_lower v) fonts
     | KFontSize => atoi_in v (fun f => negb ((f <? 8) || (f >? 100))%Z)
     | KTextTransform => mem_word (go_lower v) text_transforms
-    | KWidth | KHeight | KPad => atoi_in v (fun _ => true)
+    | KPad => atoi_in v (fun _ => true)
+    | KWidth | KHeight   (* `if v < 0` added by 0fc4ab54b *)
     | KTop | KLeft | KGridGap | KVerticalGap | KHorizontalGap => atoi_in v (fun z => negb (z <? 0)%Z)
     | KGridRows | KGridColumns => atoi_in v (fun z => negb (z <=? 0)%Z)
     | KDirection => mem_word (go_lower v) directions
@@ -427,6 +437,15 @@ Section Accepts.
     end.
 End Accepts.
 
+(* ---------------------------------------------------------------- pinned variants (before 0fc4ab54b) *)
+(* width/height: only Atoi's error was tested; opacity: `f < 0 || f > 1`, which NaN passes *)
+Definition size_accepts_pinned (v : list N) : bool := atoi_in v (fun _ => true).
+Definition opacity_accepts_pinned (v : list N) : bool :=
+  match parse_float v with
+  | Some f => negb (flt_lt0 f || flt_gt1 f)
+  | None => false
+  end.
+
 (* ---------------------------------------------------------------- near: CONSTANT on a root-level object *)
 (* lower-case words joined by single hyphens: the shape of every near constant *)
 Definition is_lc (c : N) : bool := (97 <=? c) && (c <=? 122).
@@ -445,8 +464,15 @@ Section Near.
   Variable parse_key : list N -> option (list (list N)).
 
   (* `x.near: V` where x is the only object of the diagram (so V can name no other object and naming
-     x itself is the ancestor error): validateNear accepts iff the FIRST path element is a constant *)
+     x itself is the ancestor error): validateNear accepts iff the key is a one-element path naming a constant *)
+  (* since 0fc4ab54b: isConst && len(nearPath) == 1 *)
   Definition near_accepts (v : list N) : bool :=
+    match parse_key v with
+    | Some [h] => mem_word h near_constants
+    | _ => false
+    end.
+  (* the pinned variant looked at the first path element only *)
+  Definition near_accepts_pinned (v : list N) : bool :=
     match parse_key v with
     | Some (h :: _) => mem_word h near_constants
     | _ => false
